@@ -101,16 +101,16 @@ def gen_cases(ctx):
                 cmds = [ok] * pos + [fail] + [['sh', 'late', 'late', 0]] * (n - pos - 1)
                 cases.append({'mode': 'direct', 'tasks': [{'name': 'e', 'cmds': cmds}]})
     ctx.count('corpus_and_exhaustive_small', len(cases))
-    nrand = 170 if quick else 1500
+    nrand = 300 if quick else 8000
     for k in range(nrand):
         mode = 'sched' if k % 3 == 0 else 'direct'
         ntasks = rng.choice([1, 2, 2, 3, 4])
         names = []
         for _ in range(ntasks):
             r = rng.random()
-            if r < 0.25:
+            if r < 0.15:
                 name = rng.choice(NAMES_BAD)
-            elif r < 0.28:
+            elif r < 0.17:
                 name = rng.choice(['n' * 256, 'é' * 128, 'n' * 255])
             elif r < 0.9:
                 name = rng.choice(NAMES_GOOD)
@@ -386,9 +386,11 @@ def run(ctx):
                 'signal / executable that cannot be started, names incl. invalid, repeated, unicode, too long), '
                 'run directly through RunTask.do and through Scheduler+QueueScheduling(1); non-trivial = some '
                 'task has >= 2 commands and at least one command really ran; distinct by case content')
+    import time
     cases = gen_cases(ctx)
     wdir = os.path.join(ctx.wd(), 'c19')
     compared = []
+    t_impl = time.time()
     for case in cases:
         obs = run_case(case, wdir, mods)
         oracle(ctx, case, obs)
@@ -408,6 +410,8 @@ def run(ctx):
         else:
             ctx.count('oracle_only_cases')
     shutil.rmtree(wdir, ignore_errors=True)
+    t_impl = time.time() - t_impl
+    t_coq = time.time()
     shard_size = 60
     shards = []
     for k in range(0, len(compared), shard_size):
@@ -421,6 +425,8 @@ def run(ctx):
             ctx.mismatch('implementation observed ' + json.dumps({'tasks': obs['tasks'], 'files': obs['files']})[:600],
                          {'case': case, 'observed': {'tasks': obs['tasks'], 'files': obs['files']}})
     ctx.extra['model_cases_compared'] = len(compared)
+    ctx.extra['phase_seconds'] = {'implementation_and_oracle': round(t_impl, 1),
+                                  'model_in_coq': round(time.time() - t_coq, 1)}
     ctx.assumptions = ['sh -c with printf/exit/kill behaves as specified (the outcome given to the model for a '
                        'command is what that command does when it is executed)',
                        'the marker file written by a command tells that the command was run',
